@@ -239,7 +239,11 @@ func (view *View) group(ctx context.Context, scope *ReferenceScope, items []pars
 	for _, item := range items {
 		switch item.(type) {
 		case parser.FieldReference, parser.ColumnNumber:
-			idx, _ := view.Header.SearchIndex(item)
+			// Without any record the item has not been evaluated yet: a field that does not exist is reported here.
+			idx, err := view.FieldIndex(item)
+			if err != nil {
+				return err
+			}
 			view.Header[idx].IsGroupKey = true
 		}
 	}
